@@ -246,6 +246,9 @@ struct Engine
     }
     virtual Plan generate(std::string const &prop, uint64_t seed, int tier) = 0;
     virtual Result execute(Plan const &, Stats &, FILE *log) = 0;
+    // true when a violating plan carries no fault of this property's kind, i.e. the failure belongs to another
+    // property's check (DESIGN.md 7.4); such a plan is reported as a NOTE, never as a violation of this property
+    virtual bool foreign(Plan const &) const { return false; }
     // knobs the shrinker may lower (toward min)
     virtual std::vector<KnobShrink> shrinkable_knobs() const { return {}; }
     // text describing real/stub components, written to evidence
